@@ -456,9 +456,13 @@ input::
         x_ = x0.clip(*bounds)
         numpy.seterr(**settings)
         if at: return x_
-        # clip x0 within bounds
+        # clip x0 within bounds (at bounds, if is unbounded on either side)
+        settings = numpy.seterr(all='ignore')
+        new = random.uniform(self._strictMin,self._strictMax)
+        numpy.seterr(**settings)
+        new = numpy.where(numpy.isfinite(new), new, x_)
         x_ = x_ != x0
-        x0[x_] = random.uniform(self._strictMin,self._strictMax)[x_]
+        x0[x_] = new[x_]
         return x0
 
     def SetInitialPoints(self, x0, radius=0.05):
